@@ -413,6 +413,8 @@ class SymEval:
             env_a = env
             binds = dict(binds)
             binds.update(self.structural_binds(pat, scrut))
+            if pat.get('k') == 'bind' and 'sub' not in pat and pat.get('name') not in binds and isinstance(scrut, dict):
+                binds[pat['name']] = ('v', scrut)         # `x => ..` / `x if guard => ..`: x is the scrutinee
             if binds:
                 env_a = dict(env)
                 env_a.update(binds)
